@@ -353,7 +353,7 @@ var classes = []class{
 					}
 				}
 				if el := time.Since(t0); el > 500*time.Millisecond {
-					return false, fmt.Sprintf("probe took %v, demonstration not attempted", el)
+					return false, fmt.Sprintf("watchdog: probe took %v, demonstration not attempted", el)
 				}
 				if n == 20 {
 					return true, "schema {maxRequestsInflight 1000, tokenBucket 1/1}: 20 back-to-back requests admitted, the token bucket member is ignored"
@@ -455,7 +455,7 @@ func subsetUnknownDemo(_ *proxyv1alpha1.UpstreamCluster) (bool, string) {
 	}
 	ctl, why := run(stub.URL)
 	if ctl != 200 {
-		return false, fmt.Sprintf("control not served (status %d %s): demonstration not possible", ctl, why)
+		return false, fmt.Sprintf("watchdog: control not served (status %d %s): demonstration not possible", ctl, why)
 	}
 	st, why := run(stub.URL + "/")
 	if st == -1 {
@@ -492,7 +492,7 @@ func mixedSchemesDemo(_ *proxyv1alpha1.UpstreamCluster) (bool, string) {
 	ready := gw.WaitReady(ctl.Name, secure.URL, true, 10*time.Second)
 	closeGateway(gw, ctl)
 	if !ready {
-		return false, "control (https stub alone) did not become ready: demonstration not possible"
+		return false, "watchdog: control (https stub alone) did not become ready: demonstration not possible"
 	}
 	gw2 := bed.NewGateway(bed.GatewayOptions{})
 	mixed := build([]string{plain.URL, secure.URL})
@@ -501,7 +501,7 @@ func mixedSchemesDemo(_ *proxyv1alpha1.UpstreamCluster) (bool, string) {
 		return true, "apply failed: " + out.Kind + " " + out.Detail
 	}
 	if !gw2.WaitReady(mixed.Name, plain.URL, true, 10*time.Second) {
-		return false, "plain stub did not become ready"
+		return false, "watchdog: plain stub did not become ready"
 	}
 	// wait for a definite health verdict on the https endpoint (a recorded failure reason), not for an absence
 	ci, _ := gw2.Cluster(mixed.Name)
